@@ -595,7 +595,8 @@ class Contract:
         fv, cargs = self.setup(it, env)
         if fv is None:
             bound = None
-            fv = FuncV(node, env, mod, self.func, bound)
+            in_class = -1 if any(isinstance(c, ast.ClassDef) for c in chain) else None      # private names are mangled
+            fv = FuncV(node, env, mod, self.func, bound, in_class)
         try:
             ret = it.run_function(fv, cargs)
         except PyRaise as pr:
